@@ -137,12 +137,14 @@ struct Ctx
    W * w;
    std::vector<ClientState> cs;
    bool quietUsed;
+   int nQuiet, nCmds;                                    // of the op being built: quiet SETDATA / REMOVEDATA sub-commands, all sub-commands
+   std::vector<std::pair<int, std::string> > stale;      // (sender, canonical path): changed by an all-quiet command of that sender
 };
 
 // a quiet SETDATA / REMOVEDATA of session K: the mirror oracle stays applicable for the clients none of whose subscription
 // paths reaches below K's session node (quiet_frame), and for the sender itself (only its own subtree changes, which its
 // mirror statement leaves out); everybody who can see the sender's subtree is out
-static void QuietBy(Ctx & c, int K)
+static void QuietMixed(Ctx & c, int K)
 {
    W & w = *c.w;
    const std::string idStr = itos((long)w.RealID(K));
@@ -162,11 +164,12 @@ static void QuietBy(Ctx & c, int K)
 static MessageRef BuildCommand(Ctx & c, int K, const std::string & code, const std::vector<std::string> & fs, std::vector<std::string> & unsubbed)
 {
    W & w = *c.w;
+   c.nCmds++;
    if (code == "s")
    {
       MessageRef m = MkMsg(PR_COMMAND_SETDATA);
       const uint32 flags = (fs.size() > 0) ? (uint32) atol(fs[0].c_str()) : 0;
-      if (flags & (1u<<SETDATANODE_FLAG_QUIET)) QuietBy(c, K);
+      if (flags & (1u<<SETDATANODE_FLAG_QUIET)) c.nQuiet++;
       std::vector<std::string> items = (fs.size() > 1 && !fs[1].empty()) ? Split(fs[1], '&') : std::vector<std::string>();
       for (size_t i=0; i<items.size(); i++)
       {
@@ -185,7 +188,7 @@ static MessageRef BuildCommand(Ctx & c, int K, const std::string & code, const s
       size_t at = 0;
       if (code == "r")
       {
-         if ((fs.size() > 0)&&(fs[0] == "1")) {(void) m()->AddBool(PR_NAME_REMOVE_QUIETLY, true); QuietBy(c, K);}
+         if ((fs.size() > 0)&&(fs[0] == "1")) {(void) m()->AddBool(PR_NAME_REMOVE_QUIETLY, true); c.nQuiet++;}
          at = 1;
       }
       std::vector<std::string> pats = (fs.size() > at && !fs[at].empty()) ? Split(fs[at], '&') : std::vector<std::string>();
@@ -339,6 +342,30 @@ static std::string CanonPattern(const W & w, const std::string & realPat)   // i
    return r;
 }
 
+struct Snapper   // canonical path -> payload text of every node
+{
+   Snapper(const W & ww) : w(ww) {}
+   void operator()(DataNode & n)
+   {
+      if (n.GetDepth() == 0) return;
+      String np; (void) n.GetNodePath(np);
+      m[CanonPath(w, np())] = Payload(n.GetData()());
+   }
+   const W & w;
+   std::map<std::string, std::string> m;
+};
+
+static void Snapshot(W & w, std::map<std::string, std::string> & out)
+{
+   for (size_t ci=0; ci<w.NumSessions(); ci++) if (w.alive(ci))
+   {
+      Snapper sn(w);
+      WalkTree(w.session(ci).GetGlobalRoot(), sn);
+      out = sn.m;
+      return;
+   }
+}
+
 static void RunCase(long k, const std::string & line)
 {
    const size_t bar = line.find('|');
@@ -366,6 +393,9 @@ static void RunCase(long k, const std::string & line)
       const int K = (f.size() > 1) ? atoi(f[1].c_str()) : -1;
       std::vector<std::string> unsubbed;
       bool valid = true;
+      c.nQuiet = 0; c.nCmds = 0;
+      std::map<std::string, std::string> before;
+      bool allQuiet = false;
       if (code == "a")
       {
          (void) w.AddSession();
@@ -385,16 +415,34 @@ static void RunCase(long k, const std::string & line)
             MessageRef sm = BuildCommand(c, K, sc, sf, unsubbed);
             if (sm()) subs.push_back(sm);
          }
+         allQuiet = (c.nQuiet > 0)&&(c.nQuiet == c.nCmds);
+         if (allQuiet) Snapshot(w, before); else if (c.nQuiet > 0) QuietMixed(c, K);
          w.client(K).Send(MkBatch(subs));
       }
       else
       {
          std::vector<std::string> fs(f.begin()+2, f.end());
          MessageRef m = BuildCommand(c, K, code, fs, unsubbed);
+         allQuiet = (c.nQuiet > 0)&&(c.nQuiet == c.nCmds);
+         if (allQuiet) Snapshot(w, before); else if (c.nQuiet > 0) QuietMixed(c, K);
          if (m()) w.client(K).Send(m); else valid = false;
       }
 
       const int rounds = w.Pump();
+      // an all-quiet command tells nobody anything: the paths whose payload / existence it changed are out of the mirror
+      // statement of every other session from now on (mirror_converges_announced); a command that mixes quiet and announced
+      // changes takes the clients that can see the sender out altogether (QuietMixed)
+      if ((valid)&&(allQuiet))
+      {
+         std::map<std::string, std::string> after; Snapshot(w, after);
+         for (std::map<std::string,std::string>::const_iterator it = before.begin(); it != before.end(); ++it)
+         {
+            std::map<std::string,std::string>::const_iterator a = after.find(it->first);
+            if ((a == after.end())||(a->second != it->second)) c.stale.push_back(std::make_pair(K, it->first));
+         }
+         for (std::map<std::string,std::string>::const_iterator it = after.begin(); it != after.end(); ++it)
+            if (before.find(it->first) == before.end()) c.stale.push_back(std::make_pair(K, it->first));
+      }
       if (rounds >= 2000) {printf("%ld ORACLE FAIL no-quiescence op#%d\n", k, j);}
 
       std::ostringstream o;
@@ -528,6 +576,8 @@ static void RunCase(long k, const std::string & line)
       {
          ClientState & me = c.cs[ci];
          const std::string ownRoot = "/H/" + itos((long)ci);
+         std::set<std::string> skip;   // changed quietly by somebody else
+         for (size_t si=0; si<c.stale.size(); si++) if (c.stale[si].first != (int)ci) skip.insert(c.stale[si].second);
          std::map<std::string,std::string> expect;
          for (size_t ni=0; ni<col.nodes.size(); ni++)
          {
@@ -535,6 +585,7 @@ static void RunCase(long k, const std::string & line)
             String np; (void) n.GetNodePath(np);
             const std::string cp = CanonPath(w, np());
             if ((cp == ownRoot)||(cp.compare(0, ownRoot.size()+1, ownRoot+"/") == 0)) continue;
+            if (skip.count(cp) > 0) continue;
             if (me.subs.MatchesPath(np(), n.GetData()(), &n)) expect[cp] = Payload(n.GetData()());
          }
          std::string why;
@@ -548,6 +599,7 @@ static void RunCase(long k, const std::string & line)
          {
             const std::string & cp = it->first;
             if ((cp == ownRoot)||(cp.compare(0, ownRoot.size()+1, ownRoot+"/") == 0)) continue;
+            if (skip.count(cp) > 0) continue;
             if (expect.find(cp) == expect.end()) why = "mirror-extra op#" + itos(j) + " c" + itos((long)ci) + " " + cp + "=" + it->second;
          }
          if (!why.empty()) printf("%ld ORACLE FAIL %s\n", k, why.c_str());
